@@ -263,10 +263,14 @@ class PythonRegex(regex.Regex):
         # a member of the set)
         excluded = set(bracket_content[1:])
         for symbol in bracket_content[1:]:
-            if len(symbol) == 2 and symbol[0] == "\\":
+            if symbol in RECOMBINE:
+                # An escaped control character excludes that character
+                excluded.add(RECOMBINE[symbol])
+            elif len(symbol) == 2 and symbol[0] == "\\":
                 # An escaped character excludes the character itself
                 excluded.add(TRANSFORMATIONS.get(symbol[1], symbol[1]))
-        return [x for x in ESCAPED_PRINTABLES if x not in excluded]
+        # Unlike ".", a negated set also matches the newline
+        return [x for x in ESCAPED_PRINTABLES + ["\n"] if x not in excluded]
 
     @staticmethod
     def _insert_or(l_to_modify):
